@@ -119,6 +119,19 @@ BOTH (E_ZTD)
         c.outS (x); c.outI (z - C16Long<T>::trunc (x)); c.outI (C16Long<T>::count ());                 \
         c.outI (C16Long<T>::vsPlainDouble (n, f, l, r, t, b, O, depth, 3, 10, z)); })
 BOTH (E_DTZ)
+// … and the throwing copy DepthToZExc (separate textual copy of both branches, with the three overflow guards)
+#define E_DTZE(k, O)                                                                                    \
+    EXTRACT_D ("C16Frustum", dtzE_##k, "Frustum.DepthToZExc_" #k "_3_10", {                               \
+        T n = c.inS ("n"); T f = c.inS ("f"); T l = c.inS ("l"); T r = c.inS ("r"); T t = c.inS ("t"); T b = c.inS ("b"); \
+        T depth = c.inS ("depth");                                                                      \
+        typedef typename C16Long<T>::S S;                                                               \
+        Frustum<S> fr (S (n), S (f), S (l), S (r), S (t), S (b), O);                                     \
+        C16Long<T>::reset ();                                                                           \
+        long z = fr.DepthToZExc (S (depth), 3, 10);                                                     \
+        T    x = C16Long<T>::last ();                                                                   \
+        c.outS (x); c.outI (z - C16Long<T>::trunc (x)); c.outI (C16Long<T>::count ());                 \
+        c.outI (C16Long<T>::vsPlainDoubleExc (n, f, l, r, t, b, O, depth, 3, 10, z)); })
+BOTH (E_DTZE)
 
 // ---------------------------------------------------------------- projection
 #define E_PROJ(k, O)                                                                                    \
